@@ -93,6 +93,9 @@ def main(run):
         _py_fallback(fc_py, level)
         lines.append("fullsym %d %d %s" % (level, n, _flat(fc0)))
         meta.append(("full-C", dict(n=n, level=level, kind=kind), fc0, fc_c, (n, n, 3, 3)))
+        if n <= 4:
+            lines.append("fullsymloop %d %d %s" % (level, n, _flat(fc0)))
+            meta.append(("full-loop-C", dict(n=n, level=level, kind=kind), fc0, fc_c, (n, n, 3, 3)))
         lines.append("pyfullsym %d %d %s" % (level, n, _flat(fc0)))
         meta.append(("full-Py", dict(n=n, level=level, kind=kind), fc0, fc_py, (n, n, 3, 3)))
         run.case(("full", n, level, fc0.tobytes()), nontrivial=(kind == "random" and n > 1))
@@ -152,6 +155,10 @@ def main(run):
         meta.append(("compact-C", dict(cell=name, smat=smat.tolist(), pmat=pm, level=level, self_inverse=self_inv), fcc0, fcc, (npa, ns, 3, 3)))
         lines.append("transposec 0 %s %s" % (tl, _flat(fcc0)))
         meta.append(("transpose-C", dict(cell=name, smat=smat.tolist(), pmat=pm, self_inverse=self_inv), fcc0, tr, (npa, ns, 3, 3)))
+        if npa * ns <= 48:
+            # the literal in-place loop model (source order, `done` table) on small cases
+            lines.append("transposeloop 0 %s %s" % (tl, _flat(fcc0)))
+            meta.append(("transpose-loop-C", dict(cell=name, smat=smat.tolist(), pmat=pm, self_inverse=self_inv), fcc0, tr, (npa, ns, 3, 3)))
         lines.append("expand 0 %s %s" % (tl, _flat(fcc0)))
         meta.append(("expand", dict(cell=name, smat=smat.tolist(), pmat=pm), fcc0, full0, (ns, ns, 3, 3)))
         run.case(("compact", name, smat.tolist(), pm, level, fcc0.tobytes()), nontrivial=ns > npa)
